@@ -84,6 +84,16 @@ namespace
             else out.set(ts.value() + 500);
         }
     };
+    struct NStartTimer  // resample shape: the element is read PASSIVELY; a timer armed in the start hook (+2, then every +3) publishes the latest value
+    {
+        static constexpr auto name = "c10_f_start_timer";
+        static void start(NodeScheduler sched) { sched.schedule(MIN_TD * 2); }
+        static void eval(In<"ts", TS<Int>, InputActivity::Passive, InputValidity::Unchecked> ts, NodeScheduler sched, Out<TS<Int>> out)
+        {
+            out.set(ts.valid() ? ts.value() + 900 : Int{900});
+            sched.schedule(MIN_TD * 3);
+        }
+    };
     struct NKeyed { static constexpr auto name = "c10_f_keyed_node"; static void eval(In<"key", TS<Int>> key, In<"ts", TS<Int>> ts, Out<TS<Int>> out) { out.set(key.value() * 100 + ts.value()); } };
     struct NBcast { static constexpr auto name = "c10_f_bcast_node"; static void eval(In<"ts", TS<Int>> ts, In<"off", TS<Int>> off, Out<TS<Int>> out) { out.set(ts.value() * 10 + off.value()); } };
 
@@ -133,6 +143,7 @@ namespace
     struct FStateless { static constexpr auto name = "c10_g_stateless"; static Port<TS<Int>> compose(Wiring &w, Port<TS<Int>> ts) { return wire<NStateless>(w, ts); } };
     struct FCounter { static constexpr auto name = "c10_g_counter"; static Port<TS<Int>> compose(Wiring &w, Port<TS<Int>> ts) { return wire<NCounter>(w, ts); } };
     struct FLate { static constexpr auto name = "c10_g_late"; static Port<TS<Int>> compose(Wiring &w, Port<TS<Int>> ts) { return wire<NLate>(w, ts); } };
+    struct FStartTimer { static constexpr auto name = "c10_g_start_timer"; static Port<TS<Int>> compose(Wiring &w, Port<TS<Int>> ts) { return wire<NStartTimer>(w, ts); } };
     struct FTimer { static constexpr auto name = "c10_g_timer"; static Port<TS<Int>> compose(Wiring &w, Port<TS<Int>> ts) { return wire<NTimer>(w, ts); } };
     struct FKeyed { static constexpr auto name = "c10_g_keyed"; static Port<TS<Int>> compose(Wiring &w, NamedPort<"key", TS<Int>> key, Port<TS<Int>> ts) { return wire<NKeyed>(w, key, ts); } };
     struct FBcast { static constexpr auto name = "c10_g_bcast"; static Port<TS<Int>> compose(Wiring &w, Port<TS<Int>> ts, Port<TS<Int>> off) { return wire<NBcast>(w, ts, off); } };
@@ -494,6 +505,7 @@ namespace
         if (f == "counter") return run_fn<FCounter>(script, bscript);
         if (f == "late") return run_fn<FLate>(script, bscript);
         if (f == "timer") return run_fn<FTimer>(script, bscript);
+        if (f == "starttimer") return run_fn<FStartTimer>(script, bscript);
         if (f == "keyed") return run_fn<FKeyed>(script, bscript);
         if (f == "bcast") return run_fn<FBcast>(script, bscript);
         if (f == "split") return run_fn<FSplit>(script, bscript);
@@ -530,6 +542,7 @@ void verif_enumerate(verif::Ctx &ctx)
         {"chain", {"s1=5", "s1=6", "s2=5", "e1", "e2"}, 2, th ? 4 : 3, {}},
         // self-scheduling children: deadlines 2..4 steps ahead, re-armed by later inputs, keys removed while deadlines are pending
         {"timer", {"s1=2", "s1=3", "s2=2", "s2=4", "s3=3", "e1", "e2"}, 1, th ? 6 : 5, {}},
+        {"starttimer", {"s1=2", "s1=3", "s2=2", "s3=3", "e1", "e2"}, 1, th ? 6 : 5, {}},   // a child that is NOT due when it is created and lives on the timer it armed in start()
         {"timer", {"s1=2", "s2=3", "s3=4", "s2=2", "e1", "e2", "e3"}, 2, th ? 4 : 3, {}},
         {"bcast", {"s1=5", "s2=6", "e1", "s1=7"}, 1, th ? 5 : 4, {"", "v1", "v2"}},
         {"split", {"s1=5", "s2=6", "e1", "s1=7"}, 1, th ? 6 : 5, {"", "v1", "v2"}},   // broadcast may become valid AFTER the first key exists (each key samples for itself)
